@@ -503,3 +503,64 @@ def run_c19_shuffle(rep, tier):
                 rep.violation("shuffle:not-a-bijection", "n=%d: %d draw sequences give %d distinct permutations (n! = %d)" % (n, count, len(perms), math.factorial(n)), rp)
     finally:
         dr.randint = real
+
+
+CROSS_SCRIPT = r"""
+import json, random, sys
+sys.path.insert(0, sys.argv[1])
+import cspuz
+from cspuz.generator import builder as B, core
+import cspuz.generator.srandom as srandom
+seed = int(sys.argv[2])
+random.seed(int(sys.argv[3]))
+srandom.use_deterministic_prng(True, seed)
+pats = {
+  "str-sym": lambda: B.ArrayBuilder2D(3, 4, ["..", "^1", "v2", "<3", ">0"], "..", symmetry=True),
+  "str-move": lambda: B.ArrayBuilder2D(2, 3, ["..", "aa", "bb"], "..", use_move=True, disallow_adjacent=True),
+  "nested": lambda: [B.Choice(["x", "y", "z"], "x"), (B.ArrayBuilder2D(2, 2, ["a", "b", "c"], "a", symmetry=True), B.Choice([0, 1], 0))],
+  "negints": lambda: B.ArrayBuilder2D(3, 3, [0, -1, -2, -7], 0, symmetry=True),
+}
+out = {}
+for name, mk in pats.items():
+    trace = []
+    def solver(p):
+        trace.append(json.dumps(p))
+        h = sum(map(ord, trace[-1]))
+        return (h % 3 != 0, h % 5)
+    res = core.generate_problem(solver, builder_pattern=mk(), max_steps=5, uniqueness=lambda a: a == 0, score=lambda a: a)
+    out[name] = [trace, json.dumps(res)]
+print(json.dumps(out))
+"""
+
+
+def run_c19_cross_process(rep, tier, seed):
+    """G3b across interpreter processes: same deterministic seed, different PYTHONHASHSEED and global random
+    state -> identical candidate sequence and result (string-valued choice sets included)"""
+    import subprocess
+    import sys
+    import tempfile
+    from pyvc.runner import write_replay
+    with tempfile.NamedTemporaryFile("w", suffix=".py", delete=False) as f:
+        f.write(CROSS_SCRIPT)
+        script = f.name
+    try:
+        outs = []
+        envs = [("0", 1), ("1", 2), ("2024", 3)] + ([("77", 4), ("random", 5)] if tier != "quick" else [])
+        for (hs, gs) in envs:
+            env = dict(os.environ, PYTHONHASHSEED=hs)
+            p = subprocess.run([sys.executable, script, repo_root(), str(seed % 1000 + 7), str(gs)], capture_output=True, text=True, env=env, timeout=300)
+            if p.returncode != 0:
+                rep.crashes.append("cross-process run failed: " + p.stderr[-400:])
+                return
+            outs.append(json.loads(p.stdout.strip().split("\n")[-1]))
+            rep.evaluations += 1
+        for name in outs[0]:
+            rep.distinct.add(("cross", name))
+            for i, o in enumerate(outs[1:], 1):
+                if o[name] != outs[0][name]:
+                    payload = dict(engine="repro-cross-process", property="C19", pattern=name, hashseeds=[envs[0][0], envs[i][0]])
+                    rp = write_replay("C19", "repro_cross_" + name, payload)
+                    rep.violation("repro:cross-process:%s" % name, "same deterministic seed but PYTHONHASHSEED %s vs %s give different candidates/results for pattern %s" % (envs[0][0], envs[i][0], name), rp)
+                    break
+    finally:
+        os.unlink(script)
